@@ -6,6 +6,7 @@ import (
 	"fmt"
 	"go/token"
 	"go/types"
+	"reflect"
 	"sort"
 	"strconv"
 	"strings"
@@ -824,7 +825,22 @@ func (b *Body) refusalReasons(l *Ledger, ai *applyInfo) {
 			// the deciding edges: those the return is control dependent on, and — where such an
 			// edge leaves a block that does nothing but evaluate the next operand of a compound
 			// condition — the edges that block depends on in turn (`a && b` is two branches)
-			bad, reasons = b.refusalVerdict(r, func(v ssa.Value) string { return b.admissibleReason(v, 0) })
+			bad, reasons = b.refusalVerdict(r, func(v ssa.Value) string {
+				// null is a value: add and replace do not turn an operation away because its
+				// value (or the text of it) is nil — that is how "value": null arrives
+				if k == "add" || k == "replace" {
+					c0, _ := stripNot(v)
+					if x, _, isNil := nilTestOfCond(c0); isNil {
+						// (the node itself being nil says the member is absent: that is a reason)
+						if ld, ok := unwrapConv(x).(*ssa.UnOp); ok && ld.Op == token.MUL {
+							if fa, ok := ld.X.(*ssa.FieldAddr); ok && fromOperationValue(fa.X, 0) {
+								return ""
+							}
+						}
+					}
+				}
+				return b.admissibleReason(v, 0)
+			})
 			if bad != "" {
 				bad += ": an applicable operation can be turned away"
 			}
@@ -2059,6 +2075,50 @@ func (b *Body) commandOptionsAndFiles(l *Ledger, lab string, fns []*ssa.Function
 		} else {
 			l.add("R-CMD", lab, key, b.posOf(dc), Discharged, "the call dominates the loop's back edge", true)
 		}
+		// (xi) what is decoded is what was read: the bytes handed to DecodePatch are the
+		// file's bytes as the read call returned them (a file the library would refuse — a
+		// lone operation object, say — is not made acceptable on the way)
+		key = fmt.Sprintf("(xi) DecodePatch #%d is handed the bytes of the file as they were read", n+1)
+		arg := unwrapConv(dc.Call.Args[0])
+		if ex, ok := arg.(*ssa.Extract); ok && ex.Index == 0 {
+			if rc, ok := ex.Tuple.(*ssa.Call); ok && rc.Call.StaticCallee() != nil && strings.Contains(rc.Call.StaticCallee().Name(), "Read") {
+				l.add("R-CMD", lab, key, b.posOf(dc), Discharged, "the argument is result 0 of "+calleeLabel(&rc.Call), true)
+				continue
+			}
+		}
+		l.add("R-CMD", lab, key, b.posOf(dc), Violated, "the argument is "+describeValue(arg)+", not the bytes a read call returned: the command decodes something other than the patch file's content", true)
+	}
+	// (xii) no -p value is demanded: without patch files the document passes through
+	if len(fns) > 0 && fns[0].Pkg != nil {
+		key := "(xii) the -p option is not required: with no patch file the document is printed as the library leaves it"
+		bad := ""
+		n := 0
+		sc := fns[0].Pkg.Pkg.Scope()
+		for _, name := range sc.Names() {
+			tn, ok := sc.Lookup(name).(*types.TypeName)
+			if !ok {
+				continue
+			}
+			st, ok := tn.Type().Underlying().(*types.Struct)
+			if !ok {
+				continue
+			}
+			for i := 0; i < st.NumFields(); i++ {
+				tag := reflect.StructTag(st.Tag(i))
+				if tag.Get("long") == "" && tag.Get("short") == "" {
+					continue
+				}
+				n++
+				if r := tag.Get("required"); r != "" && r != "false" && r != "no" {
+					bad = "option " + st.Field(i).Name() + " of " + name + " is tagged required:\"" + r + "\": a run without it is refused by the flag parser before stdin is read"
+				}
+			}
+		}
+		if bad != "" {
+			l.add("R-CMD", lab, key, "", Violated, bad, true)
+		} else if n > 0 {
+			l.add("R-CMD", lab, key, "", Discharged, fmt.Sprintf("%d option field(s), none tagged required", n), true)
+		}
 	}
 }
 
@@ -2495,4 +2555,29 @@ func (b *Body) onlyTheEncoderFailsAfterTheLoop(l *Ledger, ai *applyInfo) {
 	} else if n > 0 {
 		l.add("R-SUCCESS", b.Name, key, b.rel(fn.Pos()), Discharged, fmt.Sprintf("%d error return(s) behind the loop, each the error of a call made behind the loop", n), true)
 	}
+}
+
+// fromOperationValue: v is what Operation.value() answered, or a field of it.
+func fromOperationValue(v ssa.Value, d int) bool {
+	if d > 4 {
+		return false
+	}
+	switch x := unwrapConv(v).(type) {
+	case *ssa.Call:
+		f := x.Call.StaticCallee()
+		return f != nil && recvTypeName(f) == "Operation" && f.Name() == "value"
+	case *ssa.UnOp:
+		if x.Op == token.MUL {
+			return fromOperationValue(x.X, d+1)
+		}
+	case *ssa.FieldAddr:
+		return fromOperationValue(x.X, d+1)
+	case *ssa.Phi:
+		for _, e := range x.Edges {
+			if fromOperationValue(e, d+1) {
+				return true
+			}
+		}
+	}
+	return false
 }
